@@ -65,7 +65,9 @@ CLAIM = dict(
          "leave them untouched; namespace(mapping|pairs[, k=v]) over data, env globals, template globals and an imported "
          "module's exported dict followed by attribute assignments) "
          "rendered repeatedly in random orders, interleaved data sets, sync and async; module cache before/after; "
-         "8-16 threads with switch interval 1e-6.",
+         "8-16 threads with switch interval 1e-6; histories of anonymous (from_string) and named (get_template(name, "
+         "globals=…)) templates with different template-level globals importing one library without context, in both "
+         "orders, interleaved, threaded, sync and async, each compared with its solo render in a fresh environment.",
     note="Trusted: Lean kernel; translator (token-shape classification of emitted stores, dynamic fragments unclassified); "
          "hand model tied by correspondence. Partial: the multi-threaded clause is explored, not proved; filter purity is "
          "snapshot-tested here (theorems belong to C19/C22); module_cache_idempotent is end-to-end only.",
@@ -537,6 +539,134 @@ def model_render_cases(ctx, res, jinja2, stats, intensify=False):
 
 
 # --------------------------------------------------------------------------------------------------------------------
+# imports without context by templates that carry their own template-level globals
+# --------------------------------------------------------------------------------------------------------------------
+# A library imported *without* context sees the environment globals plus the importing template's extra template-level
+# globals (Template._get_default_module(ctx), environment.py).  Every importer must get a module built for *its* globals:
+# anonymous templates (from_string: name None) and a named template whose globals are extended by a later
+# get_template(name, globals=…) are rendered in both orders, interleaved, repeatedly, from threads, sync and async;
+# the oracle is the solo render of the same job in a brand new environment.
+
+IMP_LIBS = [
+    "{% macro greet(who) %}{{ greeting }}, {{ who }} from {{ site }}!{% endmacro %}{% set top = site|default('no-site') %}",
+    "{% set top = (site, tg2|default(0)) %}{% macro greet(who) %}[{{ who }}|{{ site|default('-') }}|{{ tg2|default('-') }}|{{ GL|sort }}]{% endmacro %}",
+    "{% macro greet(who) %}{{ inner(who) }}{% endmacro %}{% macro inner(w) %}<{{ w }}@{{ site }}>{% endmacro %}{% set top = site ~ ':' ~ greeting %}",
+]
+IMP_PAGES = [
+    "{% import 'modlib' as m %}{{ m.greet(name) }}/{{ m.top }}",
+    "{% from 'modlib' import greet, top %}{{ greet(name) }}/{{ top }}",
+    "{% from 'modlib' import greet as g2 %}{% for x in [1, 2] %}{{ g2(name ~ x) }}{% endfor %}",
+    "{% import 'modlib' as m %}{% macro wrap(n) %}({{ m.greet(n) }}){% endmacro %}{{ wrap(name) }}{{ m.top }}",
+    "{% import 'modlib' as a %}{% import 'modlib' as b %}{{ a.greet(name) }}{{ b.top }}",
+]
+SITES = ["alpha", "beta", "gamma", "delta"]
+
+
+def imp_env(jinja2, is_async, lib, named_src):
+    env = jinja2.Environment(loader=jinja2.DictLoader({"modlib": lib, "named": named_src}), enable_async=is_async)
+    env.globals["greeting"] = "Hello"
+    env.globals["GL"] = [3, 1, 2]
+    return env
+
+
+def imp_template(env, job):
+    kind, src, tglobals, _data = job
+    g = dict(tglobals)
+    if kind == "named":
+        return env.get_template("named", globals=g), g
+    return env.from_string(src, globals=g), g
+
+
+def imp_solo(jinja2, is_async, lib, named_src, job):
+    """one render of this job alone in a brand new environment"""
+    env = imp_env(jinja2, is_async, lib, named_src)
+    t, _g = imp_template(env, job)
+    return render(t, dict(job[3]), "render")
+
+
+def import_globals_histories(ctx, res, jinja2, stats):
+    n = ctx.pick(12, 120)
+    for i in range(n):
+        r = ctx.rng("impglobals", i)
+        is_async = r.random() < 0.4
+        lib = r.choice(IMP_LIBS)
+        named_src = r.choice(IMP_PAGES)
+        jobs = []
+        for _ in range(r.randint(3, 6)):
+            tg = {"site": r.choice(SITES)}
+            if r.random() < 0.4:
+                tg["tg2"] = r.randint(1, 9)
+            if r.random() < 0.15:
+                tg = {}
+            jobs.append((r.choice(["anon", "anon", "named"]), r.choice(IMP_PAGES), tg, {"name": r.choice(["Ann", "Bob", "Cy"])}))
+        # a named template keeps the globals it was given earlier (documented): keep its key set constant over the history
+        named_keys = None
+        fixed = []
+        for kind, src, tg, data in jobs:
+            if kind == "named":
+                if named_keys is None:
+                    named_keys = sorted(tg)
+                tg = {k: tg.get(k, r.randint(1, 9) if k == "tg2" else r.choice(SITES)) for k in named_keys}
+            fixed.append((kind, src, tg, data))
+        jobs = fixed
+        solo = [imp_solo(jinja2, is_async, lib, named_src, j) for j in jobs]
+        env = imp_env(jinja2, is_async, lib, named_src)
+        anon = {ji: imp_template(env, j) for ji, j in enumerate(jobs) if j[0] == "anon"}
+        order = list(range(len(jobs))) + list(reversed(range(len(jobs)))) + [r.randrange(len(jobs)) for _ in range(len(jobs) * 2)]
+        meta = dict(kind="import-template-globals", lib=lib, named=named_src, jobs=[list(j) for j in jobs], order=order, is_async=is_async,
+                    seed=ctx.seed)
+        hows = ["render", "kwargs", "generate"] + (["render_async"] if is_async else [])
+        for pos, ji in enumerate(order):
+            job = jobs[ji]
+            if job[0] == "named":
+                t, g = imp_template(env, job)       # get_template(name, globals=…) on the cached template
+            else:
+                t, g = anon[ji]
+            g_before, data = dict(g), dict(job[3])
+            got = render(t, data, r.choice(hows))
+            stats["import_globals_renders"] = stats.get("import_globals_renders", 0) + 1
+            if got != solo[ji]:
+                res.violate("C29:repeat-differs:import-template-globals",
+                            f"history position {pos}: {job[0]} template {job[1]!r} with template globals {job[2]!r} gives {got!r:.120} after the "
+                            f"renders {order[:pos]} of {[(j[0], j[2]) for j in jobs]!r:.300}; alone in a fresh environment it gives "
+                            f"{solo[ji]!r:.120} (library {lib!r:.120})", dict(meta, position=pos))
+            if g != g_before or data != job[3]:
+                res.violate("C29:input-modified:template-globals", f"render of job {ji} changed its template globals or data: {g_before} -> {g}",
+                            dict(meta, position=pos))
+        # threads: anonymous templates only (each thread owns its template objects; the library module is shared), cold environment
+        if not is_async and anon:
+            tenv = imp_env(jinja2, False, lib, named_src)
+            tjobs = [ji for ji in anon]
+            ttempl = {ji: imp_template(tenv, jobs[ji])[0] for ji in tjobs}
+            nthreads = r.choice([8, 12, 16])
+            plan = [[r.choice(tjobs) for _ in range(ctx.pick(6, 10))] for _ in range(nthreads)]
+            results = [None] * nthreads
+            barrier = threading.Barrier(nthreads)
+
+            def work(k):
+                barrier.wait()
+                results[k] = [render(ttempl[ji], dict(jobs[ji][3]), "render") for ji in plan[k]]
+
+            old = sys.getswitchinterval()
+            sys.setswitchinterval(1e-6)
+            try:
+                ths = [threading.Thread(target=work, args=(k,)) for k in range(nthreads)]
+                for th in ths:
+                    th.start()
+                for th in ths:
+                    th.join()
+            finally:
+                sys.setswitchinterval(old)
+            for k in range(nthreads):
+                for ji, got in zip(plan[k], results[k] or []):
+                    stats["import_globals_renders"] = stats.get("import_globals_renders", 0) + 1
+                    if got != solo[ji]:
+                        res.violate("C29:thread-differs:import-template-globals",
+                                    f"thread {k}/{nthreads}: anonymous template {jobs[ji][1]!r} with template globals {jobs[ji][2]!r} gives "
+                                    f"{got!r:.120}; alone in a fresh environment {solo[ji]!r:.120}", dict(meta, threads=nthreads))
+
+
+# --------------------------------------------------------------------------------------------------------------------
 # run
 # --------------------------------------------------------------------------------------------------------------------
 
@@ -555,6 +685,7 @@ def run(ctx, res):
 
     unit_cases(ctx, res, jinja2, stats)
     model_render_cases(ctx, res, jinja2, stats, intensify)
+    import_globals_histories(ctx, res, jinja2, stats)
 
     # ---- deep snapshots around generated templates ---------------------------------------------------------------------
     n_envs = ctx.pick(32, 200) * (3 if intensify and ctx.quick else 1)
@@ -669,7 +800,8 @@ def run(ctx, res):
                                 dict(templates=templates, threads=nthreads, seed=ctx.seed))
 
     res.coverage.update({
-        "evaluations": evaluations + stats["unit"] + stats["model_render"],
+        "evaluations": evaluations + stats["unit"] + stats["model_render"] + stats.get("import_globals_renders", 0),
+        "import_template_globals_renders": stats.get("import_globals_renders", 0),
         "distinct_nontrivial": len(distinct) + stats["unit"] + stats["model_render"],
         "rule": "L-unit: random dicts over 3 keys x shared x globals x locals (with missing) through new_context / get_all / derived, "
                 "identity and contents compared with the model; model programs (set/copy/lookup/scope, depth <= 2) rendered as real "
@@ -692,6 +824,17 @@ def run(ctx, res):
 
 def replay(ctx, case):
     jinja2 = core.import_jinja()
+    case = case.get("case", case)      # a replay file wraps the case
+    if case.get("kind") == "import-template-globals":
+        jobs = [tuple(j) for j in case["jobs"]]
+        env = imp_env(jinja2, case["is_async"], case["lib"], case["named"])
+        anon = {ji: imp_template(env, j) for ji, j in enumerate(jobs) if j[0] == "anon"}
+        out = []
+        for pos, ji in enumerate(case["order"][:case.get("position", len(case["order"])) + 1]):
+            t = imp_template(env, jobs[ji])[0] if jobs[ji][0] == "named" else anon[ji][0]
+            out.append({"position": pos, "job": ji, "template_globals": jobs[ji][2], "got": render(t, dict(jobs[ji][3])),
+                        "solo_in_fresh_environment": imp_solo(jinja2, case["is_async"], case["lib"], case["named"], jobs[ji])})
+        return {"library": case["lib"], "history": out}
     if "templates" not in case:
         return {"note": "not an end-to-end case", "case": case}
     env = make_env(jinja2, case.get("is_async", False), case["templates"], autoescape=case.get("autoescape", False))
